@@ -402,6 +402,10 @@ impl Group for CspHeader {
 /// every response kind through a real server carries the headers the Package chain model predicts
 pub struct Chain;
 impl Group for Chain {
+    // a real server / real sockets with read timeouts: a failure counts if it shows again when the same case is re-run
+    fn timing_sensitive(&self) -> bool {
+        true
+    }
     fn name(&self) -> &'static str {
         "c14.chain"
     }
